@@ -434,8 +434,22 @@ func (c *Client) Mail(from string, opts *MailOptions) error {
 	// A high enough power of 2 than 510+14+26+11+9+9+39+500
 	sb.Grow(2048)
 	fmt.Fprintf(&sb, "MAIL FROM:<%s>", from)
-	if _, ok := c.ext["8BITMIME"]; ok {
-		sb.WriteString(" BODY=8BITMIME")
+	body := Body8BitMIME
+	if opts != nil && opts.Body != "" {
+		body = opts.Body
+	}
+	switch body {
+	case Body7Bit, Body8BitMIME:
+		if _, ok := c.ext["8BITMIME"]; ok {
+			fmt.Fprintf(&sb, " BODY=%s", string(body))
+		}
+	case BodyBinaryMIME:
+		if _, ok := c.ext["BINARYMIME"]; !ok {
+			return errors.New("smtp: server does not support BINARYMIME")
+		}
+		sb.WriteString(" BODY=BINARYMIME")
+	default:
+		return errors.New("smtp: Unknown BODY parameter value")
 	}
 	if _, ok := c.ext["SIZE"]; ok && opts != nil && opts.Size != 0 {
 		fmt.Fprintf(&sb, " SIZE=%v", opts.Size)
